@@ -41,10 +41,10 @@ def fits(tag: str, d: DT) -> bool:
 
 def run(ctx) -> None:
     ctx.rule("a.site-typing", "every Vector(...) construction with an explicit dtype has an admissible (data, dtype) "
-                              "provenance pair (see table in DESIGN.md 2/C03)", 30)
+                              "provenance pair (see table in DESIGN.md 2/C03)", 15)
     ctx.rule("a.copy-callers", "every `x.copy(data)` passes elements of x itself (slice/mask/gather/permutation) or is a table "
-                               "construction: copy() relabels its data with x's dtype", 10)
-    ctx.rule("a.inferred-sites", "all other construction sites pass no dtype: the dtype is inferred from the very values stored", 100)
+                               "construction: copy() relabels its data with x's dtype", 5)
+    ctx.rule("a.inferred-sites", "all other construction sites pass no dtype: the dtype is inferred from the very values stored", 50)
     ctx.rule("b.validation-loop", "for every (vector dtype, running target, value type): one iteration of __setitem__'s "
                                   "validation loop either rejects with SerifTypeError exactly when no promotion exists, or "
                                   "leaves a target that the value fits and that is not narrower; no early exit; no write to "
